@@ -9,6 +9,7 @@ import (
 	"go/token"
 	"go/types"
 	"math/big"
+	"sort"
 	"strings"
 
 	"golang.org/x/tools/go/ssa"
@@ -414,6 +415,8 @@ func (c *EvalCtx) equalValues(a, b TV) (*Term, bool) {
 			return tb.Eq(av, tb.IntC(0)), true
 		case nilV:
 			return tb.True(), true
+		case FuncV:
+			return tb.False(), true // a function literal / method value is never nil
 		}
 		return nil, false
 	}
@@ -518,6 +521,24 @@ func (c *EvalCtx) ident(name string) TV {
 
 func findCell(fn *ssa.Function, name string) *ssa.Alloc {
 	var best *ssa.Alloc
+	// name#k: the k-th local of that name in source order (shadowed / compiler-generated names)
+	if i := strings.Index(name, "#"); i > 0 {
+		var k int
+		fmt.Sscanf(name[i+1:], "%d", &k)
+		var all []*ssa.Alloc
+		for _, b := range fn.Blocks {
+			for _, in := range b.Instrs {
+				if a, ok := in.(*ssa.Alloc); ok && a.Comment == name[:i] {
+					all = append(all, a)
+				}
+			}
+		}
+		sort.SliceStable(all, func(i, j int) bool { return all[i].Pos() < all[j].Pos() })
+		if k >= 1 && k <= len(all) {
+			return all[k-1]
+		}
+		return nil
+	}
 	for _, b := range fn.Blocks {
 		for _, in := range b.Instrs {
 			if a, ok := in.(*ssa.Alloc); ok && a.Comment == name {
@@ -700,6 +721,9 @@ func (c *EvalCtx) field(e *Expr) TV {
 	}
 	if t, ok := v.(*Term); ok && isRefLike(fi.T) && !isString(fi.T) && t.Sort == IntSort {
 		c.fact(x.tb.Lt(t, h.A))
+		if ext := pointeeExtent(fi.T); ext > 1 {
+			c.fact(x.tb.Implies(x.tb.Ne(t, x.tb.IntC(0)), x.tb.Le(x.tb.Add(t, x.tb.IntC(ext)), h.A)))
+		}
 	}
 	ft := fi.T
 	if isStruct(ft) {
@@ -750,6 +774,15 @@ func (c *EvalCtx) index(e *Expr) TV {
 			v := x.sel(bv, i)
 			x.axiom(x.typeInv(v, at.Elem(), nil))
 			return TV{V: v, T: at.Elem()}
+		}
+		// local array variable (naive form keeps it in the heap): pointer to array
+		if pt, ok := base.T.Underlying().(*types.Pointer); ok {
+			if at, ok := pt.Elem().Underlying().(*types.Array); ok && !isStruct(at.Elem()) && bv.Sort == IntSort {
+				m := x.heapGet(c.cur.heap, "E."+elemKey(at.Elem()), x.contentsSort(at.Elem()))
+				v := x.sel(x.sel(m, bv), i)
+				x.axiom(x.typeInv(v, at.Elem(), nil))
+				return TV{V: v, T: at.Elem()}
+			}
 		}
 	}
 	return c.fail("cannot index %s", e.Args[0])
@@ -886,6 +919,16 @@ func (c *EvalCtx) callExpr(e *Expr) TV {
 			return TV{V: sv.Ref, T: types.NewPointer(sv.T)}
 		}
 		return v
+	case "addr":
+		// addr(e.f): the reference of the struct- or array-typed field f inside its object
+		if args[0].Kind != "field" {
+			return c.fail("addr() needs a field expression")
+		}
+		r, fi, err := x.fieldRef(args[0], c)
+		if err != nil {
+			return c.fail("addr(): %v", err)
+		}
+		return TV{V: x.refAdd(r, fi.Off), T: types.NewPointer(types.NewStruct(nil, nil))}
 	case "arr":
 		v := c.eval(args[0])
 		if sv, ok := v.V.(SliceV); ok {
